@@ -709,18 +709,61 @@ func c11Trackers(c *core.Ctx) {
 		}
 		return strings.Join(out, " | "), f
 	}
-	want := map[string]string{
-		"defaultResultTracker.succeeded":                   "(recv.numSucceeded >= recv.minSucceeded)",
-		"defaultResultTracker.failed":                      "(recv.numErrors > recv.maxErrors)",
-		"defaultResultTracker.shouldIncludeResultFrom":     "true",
-		"zoneAwareResultTracker.failed":                    "(len(recv.failuresByZone) > recv.maxUnavailableZones)",
-		"zoneAwareResultTracker.shouldIncludeResultFrom":   "((recv.failuresByZone[p0.Zone] == 0) && (recv.waitingByZone[p0.Zone] == 0))",
+	// predicates evaluated over orderings (insensitive to operand order / negation forms)
+	type pred struct {
+		fn    string
+		atoms []an.Atom
+		cmp   map[string]string
+		want  func(r an.Row) bool
+		text  string
 	}
-	for _, name := range keys(want) {
-		got, f := retCanon(name)
-		if f != nil {
-			c.Check(got == want[name], "R9", "func="+name, f.Pos(), "returns "+got+" (required "+want[name]+")", 1)
+	for _, p := range []pred{
+		{"defaultResultTracker.succeeded", []an.Atom{{Name: "o", Values: []string{"lt", "eq", "gt"}}}, map[string]string{"recv.numSucceeded|recv.minSucceeded": "o"},
+			func(r an.Row) bool { return r["o"] != "lt" }, "succeeded ⇔ numSucceeded ≥ minSucceeded"},
+		{"defaultResultTracker.failed", []an.Atom{{Name: "o", Values: []string{"lt", "eq", "gt"}}}, map[string]string{"recv.numErrors|recv.maxErrors": "o"},
+			func(r an.Row) bool { return r["o"] == "gt" }, "failed ⇔ numErrors > maxErrors"},
+		{"zoneAwareResultTracker.failed", []an.Atom{{Name: "o", Values: []string{"lt", "eq", "gt"}}}, map[string]string{"len(recv.failuresByZone)|recv.maxUnavailableZones": "o"},
+			func(r an.Row) bool { return r["o"] == "gt" }, "failed ⇔ number of zones with a failure > maxUnavailableZones"},
+		{"zoneAwareResultTracker.shouldIncludeResultFrom", []an.Atom{{Name: "f", Values: []string{"eq", "gt"}}, {Name: "w", Values: []string{"eq", "gt"}}},
+			map[string]string{"recv.failuresByZone[p0.Zone]|0": "f", "recv.waitingByZone[p0.Zone]|0": "w"},
+			func(r an.Row) bool { return r["f"] == "eq" && r["w"] == "eq" }, "include ⇔ the instance's zone has no failure ∧ nothing outstanding"},
+	} {
+		f := an.FindFunc(pkg, p.fn)
+		if f == nil {
+			c.Miss("R9", "func="+p.fn, "not found")
+			continue
 		}
+		c.Analysed(f.String())
+		g := f.Graph()
+		var rets []*ast.ReturnStmt
+		var locs []an.Loc
+		for _, b := range g.Blocks {
+			if r := an.ReturnOf(b); r != nil && len(r.Results) == 1 {
+				rets = append(rets, r)
+				locs = append(locs, g.Locate(r))
+			}
+		}
+		bad := []string{}
+		rows := an.Rows(p.atoms)
+		for _, row := range rows {
+			bd := &an.Binder{Fn: f, Cmp: p.cmp, Row: row}
+			ex := g.Exec(g.EntryLoc(), locs, bd.Leaf, an.ExecOpts{})
+			got := an.Tri(an.U)
+			n := 0
+			for i, r := range rets {
+				if ex.May[i] {
+					n++
+					got = an.EvalCond(f.Info(), r.Results[0], nil, bd.Leaf)
+				}
+			}
+			if n != 1 || got == an.U || (got == an.T) != p.want(row) {
+				bad = append(bad, fmt.Sprintf("{%s} -> %v", rowString(row), got))
+			}
+		}
+		c.Check(len(bad) == 0, "R9", "func="+p.fn, f.Pos(), p.text+fmt.Sprintf(" on %d orderings; mismatches %v", len(rows), bad), len(rows))
+	}
+	if got, f := retCanon("defaultResultTracker.shouldIncludeResultFrom"); f != nil {
+		c.Check(got == "true", "R9", "func=defaultResultTracker.shouldIncludeResultFrom", f.Pos(), "without zone-awareness every received result is included: returns "+got, 1)
 	}
 	// constructors: thresholds
 	if f := an.FindFunc(pkg, "newDefaultResultTracker"); f != nil {
